@@ -1274,6 +1274,46 @@ def _cache_cleared_by_index(cx: Cx, method_name: str) -> bool:
     return False
 
 
+def stale_tables(cx: Cx, ob: Ob, qualnames: list[str]) -> None:
+    """A converter a function constructs, whose records it then changes in place, and which it hands out AS IT IS:
+    the lookup tables were built from the records as they were at construction (only ``Converter(...)`` and
+    ``_index`` write them), so the result lists names its own tables do not know."""
+    for q in qualnames:
+        fn = cx.model.functions.get(q)
+        if fn is None:
+            continue
+        s = cx.summary(fn, ob.id)
+        ob.site(f"{fn.where} {fn.qualname}", "constructed converters are not changed in place before they are returned")
+        for t, ctx in s.returns():
+            if not (op(t) == "call" and op(t[1]) == "cls" and t[1][1] == CONV):
+                continue
+            recs_attr = ("attr", t, "records")
+            for lp, lctx in s.walk():
+                if lp.kind != "loop" or _strip_views(lp.b) != recs_attr or not lp.body:
+                    continue
+
+                def stores(paths):
+                    for p_ in paths:
+                        for e in p_.events:
+                            if e.kind == "store" and op(e.a) == "attr" and e.a[2] in (CANON | LISTS) and any(x == lp.a for x in subterms(e.a[1])):
+                                yield e
+                            if e.kind == "expr" and op(e.a) == "call" and callee_name(e.a) in MUTATORS and op(e.a[1]) == "attr" and op(e.a[1][1]) == "attr" and e.a[1][1][2] in LISTS and any(x == lp.a for x in subterms(e.a[1][1][1])):
+                                yield e
+                            if e.body:
+                                yield from stores(e.body)
+
+                hit = next(stores(lp.body), None)
+                if hit is not None:
+                    ob.violate(
+                        fn.qualname,
+                        where(fn, hit.line),
+                        f"{fn.name} changes the records of the converter it constructed (`{show(hit.a)[:50]}`) and then returns that converter as it is: its lookup tables were built before the change, so it lists names its tables do not know (and answers for names it no longer lists)",
+                        witness="the result's records carry the new URI prefix, result.compress(<URI under it>) is None",
+                        detail="stale-tables",
+                    )
+                    break
+
+
 def cached_derivations(cx: Cx, ob: Ob, class_names=("Record", "Reference", "NamableReference", "NamedReference", "Converter", "ReferenceTuple")) -> None:
     """No memoised derived value on objects whose fields are mutated in place / copied with updates."""
     for ci in cx.model.classes.values():
